@@ -116,6 +116,18 @@ def validate_time(hour: int, minute: int, second: int, franctional_second: int) 
         raise ValueError("Fractional second must be in 0..999999999")
 
 
+def date_ordinal(year: int, month: int, day: int) -> int:
+    """Return the proleptic Gregorian day number of a date, for any year.
+
+    It's the same numbering as `datetime.date.toordinal`, 0001-01-01 is
+    day 1, but it's not limited to the years 1..9999.
+    """
+    prev = year - 1
+    days = prev * 365 + prev // 4 - prev // 100 + prev // 400
+    days += sum(mdays[1:month]) + (month > 2 and isleap(year))
+    return days + day
+
+
 SIMPLE_TWO_DIGITS_FORMATS = ("d", "m", "H", "M")
 
 
